@@ -254,7 +254,7 @@ def generate(tier, rng):
     # the width boundary of a 16-bit counter of open indefinite containers (skip counts them in a u64): 2^16 - 1, 2^16, 2^16 + 1 levels
     for d in (65535, 65536, 65537):
         for name, b in chains(d):
-            if name in ("indef-array", "indef-map", "switch-at-depth-indef"):
+            if name in ("indef-array", "indef-map", "switch-at-depth-indef", "tags", "tags-wide"):
                 emit(out, b, suffixes=(b"", b"\x01"), prefixes=(len(b) - 1,))
     for n in [23, 24, 255, 256, 1000] + ([10000, 65536] if big else []):
         for name, b in flat(n):
